@@ -1,7 +1,7 @@
 package main
 
 // template lengths per writer index (harness/oned/zz_verif_c03.go verifTemplate)
-var c03Len = []int64{12, 7, 11, 7, 7, 9, 10, 8, 8, 8}
+var c03Len = []int64{12, 7, 11, 7, 7, 9, 10, 8, 8, 8, 8}
 
 func c03Margin(wi int64) int64 {
 	if wi == 3 {
@@ -15,7 +15,7 @@ func init() {
 		Tasks: func(tier string, seed int64) []Task {
 			var ts []Task
 			thorough := tier == "thorough"
-			names := "writer (0 EAN-13, 1 EAN-8, 2 UPC-A, 3 UPC-E, 4 Code 39, 5 Code 93, 6 Code 128, 7 ITF, 8 Codabar, 9 Code 39 full ASCII)"
+			names := "writer (0 EAN-13, 1 EAN-8, 2 UPC-A, 3 UPC-E, 4 Code 39, 5 Code 93, 6 Code 128, 7 ITF, 8 Codabar, 9 Code 39 full ASCII, 10 Code 128 with control characters)"
 			// concrete samples at several sizes and margins
 			for wi := int64(0); wi <= 8; wi++ {
 				for _, s := range [][3]int64{{0, 0, -1}, {0, 0, 25}, {400, 50, -1}, {333, 7, 31}} {
@@ -27,7 +27,7 @@ func init() {
 				}
 			}
 			// free characters
-			for wi := int64(0); wi <= 9; wi++ {
+			for wi := int64(0); wi <= 10; wi++ {
 				n := c03Len[wi]
 				digits := wi <= 3 || wi == 7
 				var pairs [][2]int64
@@ -92,7 +92,7 @@ func init() {
 		},
 		Bounds: func(tier string) map[string]interface{} {
 			return map[string]interface{}{
-				"content":   "one template per symbology (EAN-13 590123412345, EAN-8 9638507, UPC-A 03600029145, UPC-E 0123456, Code 39 'A1-Z. 9', Code 93 'a~Code 93', Code 128 'Ab1x23456z', ITF 12345678, Codabar A1234-5B, Code 39 full ASCII 'a1-Z. 9~') in which one or two characters are free over the symbology's whole alphabet (digits; 43 Code 39 characters; ASCII 0..127; 16 Codabar data characters and 4 start/stop letters); quick: 3 position pairs for digit symbologies, every single position for the ASCII ones; thorough: every pair of positions for digit symbologies, selected pairs for the others",
+				"content":   "one template per symbology (EAN-13 590123412345, EAN-8 9638507, UPC-A 03600029145, UPC-E 0123456, Code 39 'A1-Z. 9', Code 93 'a~Code 93', Code 128 'Ab1x23456z', ITF 12345678, Codabar A1234-5B, Code 39 full ASCII 'a1-Z. 9~', Code 128 in code set A context '\\nAB\\x02CD12') in which one or two characters are free over the symbology's whole alphabet (digits; 43 Code 39 characters; ASCII 0..127; 16 Codabar data characters and 4 start/stop letters); quick: 3 position pairs for digit symbologies, every single position for the ASCII ones; thorough: every pair of positions for digit symbologies, selected pairs for the others",
 				"rendering": "default size and margin, one integer upscale with slack and height 20, explicit margins 25 and 31; UPC-E only with MARGIN >= 14",
 				"reading":   "gozxing.NewBinaryBitmapFromImage (hybrid binariser) -> matching reader's Decode without hints; UPC/EAN also through NewMultiFormatUPCEANReader with POSSIBLE_FORMATS = the written format or all four",
 				"rejection": "one free byte (0..255) at 3 positions per symbology; digit contents of length 1..15",
